@@ -36,6 +36,26 @@ def IsUpperHex (c : Byte) : Prop := c ∈ hexDigits.map ch
 
 instance (c : Byte) : Decidable (IsUpperHex c) := by unfold IsUpperHex; infer_instance
 
+def lowerHexDigits : List Char :=
+  ['0', '1', '2', '3', '4', '5', '6', '7', '8', '9', 'a', 'b', 'c', 'd', 'e', 'f']
+
+/-- the value of a hex digit of either case (`0-9`, `A-F`, `a-f`); `none` for
+every other character -/
+def hexVal (c : Byte) : Option Nat :=
+  match (hexDigits.map ch).idxOf? c with
+  | some v => some v
+  | none => (lowerHexDigits.map ch).idxOf? c
+
+/-- ASCII case folding: only `A-Z` / `a-z` change -/
+def asciiLower (c : Byte) : Byte := if 0x41 ≤ c.toNat ∧ c.toNat ≤ 0x5A then c + 0x20#8 else c
+def asciiUpper (c : Byte) : Byte := if 0x61 ≤ c.toNat ∧ c.toNat ≤ 0x7A then c - 0x20#8 else c
+
+/-- reference parse of a hex text of either case: two digits per byte, high
+digit first; an odd last character is not used -/
+def bytesOfHex : List Byte → List Byte
+  | hi :: lo :: rest => BitVec.ofNat 8 (16 * (hexVal hi).getD 0 + (hexVal lo).getD 0) :: bytesOfHex rest
+  | _ => []
+
 /-! ### RFC 4648 -/
 
 /-- bits of a byte, most significant first -/
@@ -81,6 +101,32 @@ def encodeWith (alphabet : List Char) (data : List Byte) : List Byte :=
 
 def base64 : List Byte → List Byte := encodeWith stdAlphabet
 def base64url : List Byte → List Byte := encodeWith urlAlphabet
+
+/-! RFC 4648 decoding, again as bit regrouping: the letters' 6-bit values are
+written as one bit string, which is cut into whole bytes (an incomplete last
+byte is dropped).  Decoding stops at the first character that is not a letter
+of the alphabet (`=`, white space, anything else). -/
+
+/-- the 6-bit value of a letter; `none` for every other character -/
+def letterVal (alphabet : List Char) (c : Byte) : Option Nat := (alphabet.map ch).idxOf? c
+
+/-- the six bits of a letter, most significant first -/
+def letterBits (alphabet : List Char) (c : Byte) : List Bool :=
+  let v := (letterVal alphabet c).getD 0
+  [v.testBit 5, v.testBit 4, v.testBit 3, v.testBit 2, v.testBit 1, v.testBit 0]
+
+/-- whole bytes of a bit string -/
+def bytesOfBits : List Bool → List Byte
+  | b0 :: b1 :: b2 :: b3 :: b4 :: b5 :: b6 :: b7 :: rest =>
+    BitVec.ofNat 8 (bitsToNat [b0, b1, b2, b3, b4, b5, b6, b7]) :: bytesOfBits rest
+  | _ => []
+
+/-- the longest prefix of alphabet letters -/
+def lettersPrefix (alphabet : List Char) (s : List Byte) : List Byte :=
+  s.takeWhile fun c => (letterVal alphabet c).isSome
+
+def decodeWith (alphabet : List Char) (s : List Byte) : List Byte :=
+  bytesOfBits ((lettersPrefix alphabet s).flatMap (letterBits alphabet))
 
 /-- `c` is a letter of the alphabet or the padding character -/
 def InAlphabet (alphabet : List Char) (c : Byte) : Prop := c ∈ alphabet.map ch ∨ c = padChar
